@@ -21,7 +21,7 @@
 void h_rfl_step(void)
 {
   /* ghost keys and witness indices: arbitrary (globals are zero in a plain harness) */
-  IORA_TRUE = 1;
+  IORA_TRUE = 1; G = (struct iora_udp_ghost){0};      /* ghost records start empty (plain proofs run with --nondet-static) */
   GPK = nondet_u64(); GSID = nondet_u64(); GB = nondet_size_t(); GK = nondet_size_t();
   __CPROVER_assume(GB < sizeof(sockaddr_storage));
   /* arbitrary engine state */
@@ -125,7 +125,7 @@ void h_rfl_step(void)
  * The resolution part above it (getaddrinfo / family matching, four early-exit close callbacks) is not under contract. */
 void h_via_tail(void)
 {
-  IORA_TRUE = 1;
+  IORA_TRUE = 1; G = (struct iora_udp_ghost){0};      /* ghost records start empty (plain proofs run with --nondet-static) */
   GPK = nondet_u64(); GSID = nondet_u64(); GB = nondet_size_t(); GK = nondet_size_t();
   __CPROVER_assume(GB < sizeof(sockaddr_storage));
   UdpEngine E; Listener L; Session WS, OS; ViaReq VR; sockaddr_storage to; socklen_t tl;
